@@ -89,9 +89,8 @@ func wlSupport(c supWL) error {
 		if e := o.S.IndexLevelOK(); e != nil {
 			return &ev.Inc{Why: e.Error()}
 		}
-		if err := checkWLStructure(w, m, o.Pw); err != nil {
-			return err
-		}
+		// (the token layout itself is C05's business: a password this loop
+		// cannot read is not judged here)
 		pos := 0
 		gapHasSep := false
 		for _, t := range o.Pw.Tokens() {
@@ -100,6 +99,10 @@ func wlSupport(c supWL) error {
 					sepSeen[pos-1][""] = true
 				}
 				a := t.Value()
+				if _, known := idx[a]; !known || pos >= L {
+					ev.Class("unreadable_layout_not_judged")
+					return &ev.Skip{Why: "token layout not as documented (C05)"}
+				}
 				wordSeen[pos][idx[a]] = true
 				if a == kept[idx[a]] {
 					uncapSeen[pos] = true
@@ -109,8 +112,14 @@ func wlSupport(c supWL) error {
 				pos++
 				gapHasSep = false
 			} else {
-				sepSeen[pos-1][t.Value()] = true
-				gapHasSep = true
+				if pos < 1 || pos > L {
+					ev.Class("unreadable_layout_not_judged")
+					return &ev.Skip{Why: "token layout not as documented (C05)"}
+				}
+				if t.Value() != "" { // an empty separator token is "no separator"
+					sepSeen[pos-1][t.Value()] = true
+					gapHasSep = true
+				}
 			}
 		}
 	}
